@@ -1,10 +1,11 @@
 // Harness for C18 (Stop/Shutdown always terminate and reclaim connections, goroutines, descriptors).
 // Real engines (core nbio and nbhttp), real sockets on 127.0.0.1, histories of connection activity, then Stop or
 // Shutdown under a watchdog.
-//  oracle (implementation alone): Stop returns within the bound; at return #OnClose == #OnOpen (core engine);
-//  every peer connection is closed; goroutines and descriptors return to the level before Start.
-//  model correspondence: the engine's counters (opened, close notifications) are replayed through the Coq
-//  StopModel accounting by the recipe (see lib/props.py) - the harness exports the per-case history.
+//
+//	oracle (implementation alone): Stop returns within the bound; at return #OnClose == #OnOpen (core engine);
+//	every peer connection is closed; goroutines and descriptors return to the level before Start.
+//	model correspondence: the engine's counters (opened, close notifications) are replayed through the Coq
+//	StopModel accounting by the recipe (see lib/props.py) - the harness exports the per-case history.
 package main
 
 import (
@@ -97,11 +98,12 @@ func fillFds(lim, room int, h *history) []*os.File {
 
 // forced configuration of a corpus case (zero value: everything drawn from the seed)
 type force struct {
-	fdlimit  bool
-	room     int
-	iomod    int // 1 + nbhttp.IOMod*, 0 = random
-	stopKind string
-	minSteps int
+	fdlimit    bool
+	room       int
+	iomod      int // 1 + nbhttp.IOMod*, 0 = random
+	stopKind   string
+	minSteps   int
+	panicFirst bool
 }
 
 func freePort() string {
@@ -149,6 +151,7 @@ func coreCase(rep *hx.Report, seed int64, fo force) {
 	np := 1 + r.Intn(3)
 	addr := freePort()
 	h := &history{Engine: "nbio", Mode: mname, NPoller: np, Seed: seed}
+	hx.Current("C18", "the process died while this history of the core engine was running (steps are appended as they are issued; the forced configuration is part of the seed)", h)
 	var opened, closed int64
 	var logMu sync.Mutex
 	var evlog []byte
@@ -365,8 +368,12 @@ func httpCase(rep *hx.Report, seed int64, fo force) {
 	conf := nbhttp.Config{Network: "tcp", Addrs: []string{addr}, NPoller: h.NPoller, EpollMod: em, EPOLLONESHOT: os1, IOMod: iomod,
 		Handler: http.HandlerFunc(func(w http.ResponseWriter, req *http.Request) {
 			io.Copy(io.Discard, req.Body)
+			if req.URL.Path == "/panic" {
+				panic("harness: handler panics (must be contained: C05/C19)")
+			}
 			w.Write([]byte("ok:" + req.URL.Path))
 		})}
+	hx.Current("C18", fmt.Sprintf("the process died while this nbhttp history was running (forced configuration %+v)", fo), h)
 	acceptFault := r.Intn(4) == 0
 	if acceptFault {
 		at := int32(1 + r.Intn(3))
@@ -416,7 +423,19 @@ func httpCase(rep *hx.Report, seed int64, fo force) {
 			continue
 		}
 		clients = append(clients, c)
-		switch r.Intn(4) {
+		kind := r.Intn(5)
+		if fo.panicFirst && i == 0 {
+			kind = 4
+		}
+		switch kind {
+		case 4: // a handler that panics on a keep-alive connection, then an ordinary request behind it
+			c.Write([]byte("GET /panic HTTP/1.1\r\nHost: x\r\n\r\nGET /after HTTP/1.1\r\nHost: x\r\n\r\n"))
+			c.SetReadDeadline(time.Now().Add(300 * time.Millisecond))
+			buf := make([]byte, 4096)
+			c.Read(buf)
+			c.SetReadDeadline(time.Time{})
+			h.Steps = append(h.Steps, "handler-panic")
+			hx.Current("C18", "the process died after a handler panic on a kept-alive connection (nbhttp)", h)
 		case 0: // complete exchange, keep-alive
 			c.Write([]byte("GET /a HTTP/1.1\r\nHost: x\r\n\r\n"))
 			c.SetReadDeadline(time.Now().Add(2 * time.Second))
@@ -640,7 +659,7 @@ func immediateStops(rep *hx.Report, out string, seed int64) {
 
 type quiet struct{}
 
-func (quiet) SetLevel(int)                  {}
+func (quiet) SetLevel(int)                 {}
 func (quiet) Debug(string, ...interface{}) {}
 func (quiet) Info(string, ...interface{})  {}
 func (quiet) Warn(string, ...interface{})  {}
@@ -660,7 +679,10 @@ func main() {
 		defer model.Close()
 	}
 	rep := hx.NewReport("stop", *seed)
-	rep.Rule = "histories of accepts, AddConn, DialAsync, echo traffic, multi-MiB backlogs to non-reading peers, vectored writes beyond MaxWriteBufferSize, pending deadlines, peer and server closes, closes racing Stop; nbhttp: exchanges, half requests, idle and unread-response connections, an injected Accept error; connections refused because the descriptor table (MaxOpenFiles) is full, for accepted / added / dialed / nbhttp connections (corpus + random); Stop/Shutdown right after Start before any poller goroutine has run (single P, no yield); x {LT, ET, ET+ONESHOT} x NPoller x IOMod x {Stop, Shutdown}; non-trivial = at least one step before Stop; distinct = distinct (configuration, step list)"
+	if *out != "" && *out != "-" {
+		hx.CurrentFile = *out + ".current"
+	}
+	rep.Rule = "histories of accepts, AddConn, DialAsync, echo traffic, multi-MiB backlogs to non-reading peers, vectored writes beyond MaxWriteBufferSize, pending deadlines, peer and server closes, closes racing Stop; nbhttp: exchanges, half requests, idle and unread-response connections, an injected Accept error, a handler that panics on a kept-alive connection; connections refused because the descriptor table (MaxOpenFiles) is full, for accepted / added / dialed / nbhttp connections (corpus + random); Stop/Shutdown right after Start before any poller goroutine has run (single P, no yield); x {LT, ET, ET+ONESHOT} x NPoller x IOMod x {Stop, Shutdown}; non-trivial = at least one step before Stop; distinct = distinct (configuration, step list)"
 	// warm up lazily started runtime goroutines so the baseline is stable
 	coreCase(hx.NewReport("warmup", 0), 12345, force{})
 	httpCase(hx.NewReport("warmup", 0), 12345, force{})
@@ -671,6 +693,12 @@ func main() {
 			for _, im := range []int{nbhttp.IOModNonBlocking, nbhttp.IOModMixed, nbhttp.IOModBlocking} {
 				httpCase(rep, *seed*100057+int64(100*i+10*room+im), force{fdlimit: true, room: room, iomod: 1 + im, stopKind: sk, minSteps: 3})
 			}
+		}
+	}
+	// corpus: a handler panic on a kept-alive connection before Stop / Shutdown, in every IOMod
+	for i, sk := range []string{"Shutdown", "Stop"} {
+		for _, im := range []int{nbhttp.IOModNonBlocking, nbhttp.IOModMixed, nbhttp.IOModBlocking} {
+			httpCase(rep, *seed*100073+int64(10*i+im), force{iomod: 1 + im, stopKind: sk, minSteps: 2, panicFirst: true})
 		}
 	}
 	for i := 0; i < *n && !rep.TooMany(); i++ {
